@@ -23,7 +23,11 @@ var names = []string{"X", "Foo/a=1-8", "", "é", "\xff\xfe", "Unit", "X:", "a=b"
 var units = []string{"ns/op", "MB/s", "B/op", "allocs/op", "ns", "MB", "sec/op", "x-ns/op", "ns/ns", "MBns", "é/op", "\xff", "1", "="}
 var nums = []string{"1", "0", "-0", "5", "100", "1.5", "1e3", "-1e-3", "+Inf", "-Inf", "NaN", "inf", "1e999", "0x1p-2", "1_000", "x", "1x", "",
 	"9223372036854775807", "9223372036854775808", "-9223372036854775808", "99999999999999999999", "99999999999999999999x", "+5", "-", "+", "1.", ".5", "１",
-	"1:", ":", "5:3", "12:", "/", "1/", "9;", "7:ns"}
+	"1:", ":", "5:3", "12:", "/", "1/", "9;", "7:ns",
+	// decimals with a point: 16-19 significant digits (double rounding if an integer fast path
+	// divided by a power of ten), exact ones, and digit strings around the int64 guard
+	"934.7250546219771", "0.1234567890123456", "123456789.0123456789", "9007199254740993.5", "1.000000000000000055",
+	"8.41e-1", "1.25", "0.5", "1024.0", "3.0000000000000004", "922337203685477580.7", "17.29999999999999999", "1.1.1", "1..2", ".", "5."}
 var unitKeys = []string{"better=higher", "better=lower", "assume=exact", "assume=nothing", "k=", "=v", "novalue", "k=v=w", "é=é", "better=HIGHER"}
 var foreign = []string{"", "PASS", "ok  \tgolang.org/x/perf\t0.1s", "--- FAIL: x", "goos linux", "Key: v", "key :v", "key:v", ":v", "key", "Unitx ns/op a=b",
 	"unit ns/op a=b", "benchmarkX 1 1 ns/op", " BenchmarkX 1 1 ns/op", "=== RUN   BenchmarkX", "\xff\xfe", "U", "Un it"}
@@ -69,9 +73,12 @@ func genBench(r *hx.Rand, exotic bool) string {
 	}
 	for i := 0; i < nv; i++ {
 		b.WriteString(sp(r, exotic))
-		if r.Chance(4, 5) {
+		switch x := r.Intn(10); {
+		case x < 6:
 			b.WriteString(hx.Pick(r, nums[:11]))
-		} else {
+		case x < 8:
+			b.WriteString(hx.Pick(r, nums[len(nums)-16:len(nums)-4])) // decimals with a point
+		default:
 			b.WriteString(hx.Pick(r, nums))
 		}
 		if i == nv-1 && r.Chance(1, 8) {
@@ -306,6 +313,9 @@ func generate() {
 	// 2b. tool labels (Reset's initConfig) against file lines with the same key: same value,
 	// other value, deletion, re-set, in every order; keys with ASCII and multi-byte first letters
 	labelHistories(hx.N(3, 4))
+	// 2c. Reset in the MIDDLE of an input: after k records (also between the records of one
+	// multi-record Unit line, and before any Scan) onto another input
+	midResets()
 	// 3. line grammar, plain and exotic
 	n := hx.N(1500, 40000)
 	for i := 0; i < n; i++ {
@@ -317,8 +327,8 @@ func generate() {
 		switch r.Intn(6) {
 		case 0, 1: // tool labels whose keys and values coincide with what the text sets
 			runReaderInit(fn, text, genLabels(r), nil)
-		case 2: // a reused reader: other text first, then Reset with labels
-			runReaderInit(fn, text, genLabels(r), genText(r, 1+r.Intn(8), false))
+		case 2: // a reused reader: other text first (drained, or left after k records), then Reset with labels
+			runReaderReuse(fn, text, genLabels(r), genText(r, 1+r.Intn(8), false), r.Intn(5)-1)
 		default:
 			runReader(fn, text)
 		}
@@ -496,6 +506,34 @@ func labelHistories(depth int) {
 				}
 			}
 			rec(nil)
+		}
+	}
+}
+
+// midResets: first inputs whose lines yield 0, 1, 2 and 3 records x Reset after k = 0..5 records
+// x second inputs x with/without labels.
+func midResets() {
+	pres := []string{
+		"Unit ns/op better=lower assume=exact\nBenchmarkP 1 1 ns/op\n",
+		"k: v\nUnit B/op a=1 bad b=2 a=3\nBenchmarkP 1 1 ns/op\nUnit MB/s better=higher\n",
+		"BenchmarkP 1 1 ns/op\nBenchmarkQ 1\nk: v\nBenchmarkR 1 2 ns/op\n",
+		"Unit\nUnit x =y z\n",
+		"",
+	}
+	seconds := []string{
+		"BenchmarkNew 1 5 ns/op\n",
+		"j: w\nUnit ns/op better=higher c=3\nBenchmarkNew 1 5 ns/op\n",
+		"PASS\n",
+	}
+	for _, p := range pres {
+		for k := 0; k <= 5; k++ {
+			for si, s := range seconds {
+				var init []string
+				if si == 1 {
+					init = []string{"k", "label"}
+				}
+				runReaderReuse("second", []byte(s), init, []byte(p), k, "corpus")
+			}
 		}
 	}
 }
